@@ -281,10 +281,15 @@ impl Node {
         match q {
             Q::ListState => wrap(Reply::State(hn.state.clone())),
             Q::WriteState { mode, gen, raw, .. } => {
+                // the two append modes of lightningd's datastore (the unchanged plugin never uses them): the new string is
+                // appended to the stored one; must-append needs an existing key
+                let append = matches!(&mode, Mode::Other(m) if m == "MUST_APPEND" || m == "CREATE_OR_APPEND");
+                let raw = match (&hn.state, append) { (Some((old, _, _)), true) => format!("{}{}", old, raw), _ => raw };
                 match (&hn.state, &mode) {
                     (None, Mode::MustReplace) => Some(Reply::Err(ErrKind::Code(1200))),
+                    (None, Mode::Other(m)) if m == "MUST_APPEND" => Some(Reply::Err(ErrKind::Code(1200))),
                     (Some(_), Mode::MustCreate) => Some(Reply::Err(ErrKind::Code(1202))),
-                    (_, Mode::Other(_)) => Some(Reply::Err(ErrKind::Code(-32602))),
+                    (_, Mode::Other(_)) if !append => Some(Reply::Err(ErrKind::Code(-32602))),
                     (None, _) => { hn.state = Some((raw, 0, issue_ms)); wrap(Reply::Gen(0)) }
                     (Some((_, cur, _)), _) => {
                         let cur = *cur;
@@ -295,10 +300,13 @@ impl Node {
                 }
             }
             Q::WriteAtt { mode, att, raw, .. } => {
+                let append = matches!(&mode, Mode::Other(m) if m == "MUST_APPEND" || m == "CREATE_OR_APPEND");
+                let raw = match (hn.atts.get(&att), append) { (Some(old), true) => format!("{}{}", old, raw), _ => raw };
                 match (hn.atts.contains_key(&att), &mode) {
                     (false, Mode::MustReplace) => Some(Reply::Err(ErrKind::Code(1200))),
+                    (false, Mode::Other(m)) if m == "MUST_APPEND" => Some(Reply::Err(ErrKind::Code(1200))),
                     (true, Mode::MustCreate) => Some(Reply::Err(ErrKind::Code(1202))),
-                    (_, Mode::Other(_)) => Some(Reply::Err(ErrKind::Code(-32602))),
+                    (_, Mode::Other(_)) if !append => Some(Reply::Err(ErrKind::Code(-32602))),
                     _ => { hn.atts.insert(att, raw); wrap(Reply::Unit) }
                 }
             }
